@@ -6,7 +6,7 @@
    [o : ops C M D] of the statements of sections 1-5, and their laws are explicit premises where
    needed; section 6 instantiates them with the models of C03, C04, C11 and discharges the premises.
    A directory [d] is the list of its (file name, content) pairs in listing order. *)
-From FB Require Import C05.Model C05.Theory1 C05.Theory2 C05.Theory3 C05.Theory4 C05.Theory5 C05.Theory6 C05.Theory7 C05.Example.
+From FB Require Import C05.Model C05.Theory1 C05.Theory2 C05.Theory3 C05.Theory4 C05.Theory5 C05.Theory6 C05.Theory7 C05.Theory8 C05.Example.
 From Coq Require Import Permutation.
 
 (* ---- 1. listing-order independence ---- *)
@@ -325,6 +325,115 @@ Print Assumptions C05_history_dir_sound.
 Theorem C05_instantiated_example : FB.C05.InstanceExample.instantiated_nonvacuous.
 Proof. exact FB.C05.InstanceExample.instantiated_nonvacuous_holds. Qed.
 Print Assumptions C05_instantiated_example.
+
+(* ---- 7. depths, validity of indices, "error iff malformed", the accessors (every directory unless said otherwise) ---- *)
+(* the depth resolve records for a node is the number of edges of a shortest walk from the root to it
+   (0 for the root, and for a node that cannot be reached from the root) *)
+Theorem C05_depth_spec : forall C M (lr : C -> res M) (d : list (file C)) g,
+  resolve lr d = Ok g ->
+  length (g_depths g) = length (g_nodes g) /\
+  nth (g_root g) (g_depths g) 0%nat = 0%nat /\
+  forall i, i <> g_root g -> (i < length (g_nodes g))%nat ->
+    (nth i (g_depths g) 0%nat = 0%nat /\ forall l, fwalk (g_edges g) (g_root g) l -> last l (g_root g) <> i)
+    \/ (exists l, fwalk (g_edges g) (g_root g) l /\ last l (g_root g) = i
+                  /\ length l = nth i (g_depths g) 0%nat /\ minimal_to (g_edges g) (g_root g) i 0 l).
+Proof. exact @depth_spec. Qed.
+Print Assumptions C05_depth_spec.
+
+(* ... so the depth of a version is the number of diffs apply_diffs folds for it (every shortest path has depth+1 nodes) *)
+Theorem C05_depth_is_path_length : forall C M (lr : C -> res M) (d : list (file C)) g i path,
+  resolve lr d = Ok g -> (i < length (g_nodes g))%nat -> In path (shortest_paths g i) ->
+  length path = S (nth i (g_depths g) 0%nat).
+Proof. exact @depth_is_path_length. Qed.
+Print Assumptions C05_depth_is_path_length.
+
+(* every index resolve hands out is a node: the root, both ends of every edge, every lookup, every node on a walk *)
+Theorem C05_indices_valid : forall C M (lr : C -> res M) (d : list (file C)) g,
+  resolve lr d = Ok g ->
+  (g_root g < length (g_nodes g))%nat
+  /\ (forall e, In e (g_edges g) -> (e_src e < length (g_nodes g))%nat /\ (e_dst e < length (g_nodes g))%nat)
+  /\ (forall k sp i, get g k = Ok (sp, i) -> (i < length (g_nodes g))%nat)
+  /\ (forall l, fwalk (g_edges g) (g_root g) l -> forall x, In x l -> (x < length (g_nodes g))%nat).
+Proof. exact @indices_valid. Qed.
+Print Assumptions C05_indices_valid.
+
+(* the walk of resolve fails exactly when a cycle can be reached from the root (pigeonhole: a walk with as many
+   edges as there are nodes runs through a node twice) *)
+Theorem C05_walk_err_iff_cycle : forall C (es : list (edge C)) root n ds,
+  (forall e, In e es -> (e_dst e < n)%nat) -> (root < n)%nat ->
+  walk (S n) es root [([], root)] ds = Err <->
+  exists l c, fwalk es root l /\ c <> [] /\ fwalk es (last l root) c /\ last c (last l root) = last l root.
+Proof. exact @walk_err_iff_cycle. Qed.
+Print Assumptions C05_walk_err_iff_cycle.
+
+(* EVERY directory: resolve fails iff a `.tinydiff` name has no `#`, or the number of `.tiny` files is not one,
+   or the root file does not load, or the graph the scan built has a cycle that can be reached from the root *)
+Theorem C05_resolve_err_iff : forall C M (lr : C -> res M) (d : list (file C)),
+  resolve lr d = Err <->
+  has_bad d = true \/ tiny_count d <> 1%nat \/
+  exists st r f, scan_dir scan0 d = Ok st /\ sc_root st = Some (r, f) /\ In f d /\ is_tiny_name (fst f) = true
+    /\ (lr (snd f) = Err \/
+        exists l c, fwalk (sc_edges st) r l /\ c <> [] /\ fwalk (sc_edges st) (last l r) c /\ last c (last l r) = last l r).
+Proof. exact @resolve_err_iff. Qed.
+Print Assumptions C05_resolve_err_iff.
+
+(* well-formed directories, on the file names: resolve fails iff the directory is malformed — a `.tinydiff` name
+   without `#`, not exactly one `.tiny` file, an unreadable root file, or a cycle among the versions named by the
+   `.tinydiff` files that can be reached from the root — and never otherwise *)
+Theorem C05_malformed_iff : forall C M (lr : C -> res M) (d : list (file C)),
+  well_formed d = true ->
+  (resolve lr d = Err <->
+   has_bad d = true \/ tiny_count d <> 1%nat \/
+   exists f vr, In f d /\ classify (fst f) = FRoot vr /\
+     (lr (snd f) = Err \/
+      exists L Cy, nwalk d vr L /\ Cy <> [] /\ nwalk d (last L vr) Cy /\ last Cy (last L vr) = last L vr)).
+Proof. exact @malformed_iff. Qed.
+Print Assumptions C05_malformed_iff.
+
+(* get_all = the single gets in order; it fails iff one of the names is unknown *)
+Theorem C05_get_all_spec : forall C M (g : graph C M) (names : list str),
+  (forall l, get_all g names = Ok l <-> Forall2 (fun k x => get g k = Ok x) names l)
+  /\ (get_all g names = Err <-> exists k, In k names /\ get g k = Err).
+Proof. exact @get_all_spec. Qed.
+Print Assumptions C05_get_all_spec.
+
+(* the diff apply_diffs applies for a step is the one get_diff reports; get_diff finds a file exactly for the edges *)
+Theorem C05_step_get_diff : forall C M D (o : ops C M D) (g : graph C M) a b m,
+  step o (g_edges g) a b m = match get_diff o g a b with Ok (Some dd) => apply o dd m | _ => Err end.
+Proof. exact @step_get_diff. Qed.
+Print Assumptions C05_step_get_diff.
+
+Theorem C05_get_diff_none_iff : forall C M D (o : ops C M D) (g : graph C M) a b,
+  get_diff o g a b = Ok None <-> ~ In b (succs (g_edges g) a).
+Proof. exact @get_diff_none_iff. Qed.
+Print Assumptions C05_get_diff_none_iff.
+
+(* non-vacuity of section 7: depths of a diamond and of the repository's fixture, a well-formed directory whose
+   only defect is a cycle entered at two of its members, get_all / get_diff on the fixture *)
+Theorem C05_examples8 : nonvacuous8.
+Proof. exact nonvacuous8_holds. Qed.
+Print Assumptions C05_examples8.
+
+(* ---- 8. the root file: C03's hypothesis on what is written follows from the contracted set ---- *)
+From FB Require C05.Theory9.
+(* C03's [textual] (every name a writable, readable cell accepted by its name type) survives C11's extension of
+   inner class names: extended names are `$`-joins of names that are textual already *)
+Theorem C05_textual_extend : forall (M : FB.Quill.Mappings.mappings) (name : str) e,
+  FB.C03.Model.textual M = true -> FB.C11.Model.extend M name = Ok e -> FB.C03.Model.textual e = true.
+Proof. exact FB.C05.Theory9.textual_extend. Qed.
+Print Assumptions C05_textual_extend.
+
+(* so [root_ok] of C05_history_sound_instantiated (which evaluates textual on the EXTENDED root set) can be
+   replaced by hypotheses on the contracted root set H root alone *)
+Theorem C05_root_ok_from_contracted : forall (M : FB.Quill.Mappings.mappings) e,
+  FB.C11.Model.simple_names M 1 = true -> FB.C03.Model.textual M = true -> FB.C11.Model.extend M ns_named = Ok e ->
+  FB.C05.Instance.root_ok M = true.
+Proof. exact FB.C05.Theory9.root_ok_from_contracted. Qed.
+Print Assumptions C05_root_ok_from_contracted.
+
+Theorem C05_examples9 : FB.C05.Theory9.nonvacuous9.
+Proof. exact FB.C05.Theory9.nonvacuous9_holds. Qed.
+Print Assumptions C05_examples9.
 
 (* ---- non-vacuity ---- *)
 Theorem C05_examples : nonvacuous.
